@@ -119,6 +119,8 @@ func npMain(args []string) error {
 								pool.Release(nm)
 								nm.Release()
 								pool.Release(nil)
+								var none *namepool.Name
+								none.Release() // releasing nil, the other way
 							}()
 							tr.Emit(Ev{"ev": "Rel2", "g": g, "panic": pan2})
 						}
